@@ -5,6 +5,7 @@ import (
 	"testing"
 
 	"github.com/atlassian/escalator/pkg/controller"
+	"github.com/atlassian/escalator/pkg/metrics"
 	v1 "k8s.io/api/core/v1"
 	metav1 "k8s.io/apimachinery/pkg/apis/meta/v1"
 
@@ -190,6 +191,9 @@ func c14Affinities() []c14Pod {
 }
 
 func c14Grid(t *testing.T, tier string, shard, shards int, c *h.Collector) {
+	if shard == 0 {
+		c14EndToEnd(t, c)
+	}
 	labelF := controller.NewPodAffinityFilterFunc(c14Key, c14Val)
 	defF := controller.NewPodDefaultFilterFunc()
 	nodeF := controller.NewNodeLabelFilterFunc(c14Key, c14Val)
@@ -341,12 +345,86 @@ func c14Grid(t *testing.T, tier string, shard, shards int, c *h.Collector) {
 	}
 }
 
+// c14EndToEnd: attribution as a whole scan applies it. A controller over a labelled group and the
+// default group; one pod per case, attributed by node selector, by required affinity or (default
+// group) by having neither, and bound nowhere / to a node of its own group / to a node of the other
+// group / to a node that no longer exists, Running or Pending. The request total each group reports
+// must be that of the pods attributed to it, wherever they are bound.
+func c14EndToEnd(t *testing.T, c *h.Collector) {
+	ga, gd := StdGroup("a"), StdGroup(controller.DefaultNodeGroup)
+	for _, g := range []*h.GroupSpec{&ga, &gd} {
+		g.Opts.MinNodes, g.Opts.MaxNodes = 0, 10
+		g.Opts.SlowNodeRemovalRate, g.Opts.FastNodeRemovalRate = 0, 0
+		g.Opts.ScaleUpThresholdPercent = 100000
+	}
+	for _, order := range [][]h.GroupSpec{{ga, gd}, {gd, ga}} {
+		for _, attr := range []string{"selector", "affinity", "default", "daemonset"} {
+			for _, bind := range []string{"unbound", "own", "other-group", "gone"} {
+				for _, phase := range []v1.PodPhase{v1.PodRunning, v1.PodPending} {
+					order, attr, bind, phase := order, attr, bind, phase
+					s := &h.Scenario{Name: "c14.e2e", Groups: order, Slots: 1, Quantum: Q,
+						Init: func(hh *h.Hist) {
+							nodeOf := map[string]string{}
+							for i, as := range InitASGs(hh) {
+								n := hh.W.AddNode(as, sim.NodeOpt{Age: 20 * Q})
+								hh.W.AddNode(as, sim.NodeOpt{Age: 21 * Q})
+								nodeOf[order[i].Opts.Name] = n.Name
+							}
+							own, other := "a", controller.DefaultNodeGroup
+							var o sim.PodOpt
+							switch attr {
+							case "selector":
+								o = podOn(ga, "", 300)
+							case "affinity":
+								o = affinityPod(ga, "", 300, false)
+							case "daemonset":
+								o = podOn(ga, "", 300)
+								o.DaemonSet = true
+							default:
+								o = sim.PodOpt{CPUMilli: 300, MemBytes: 64 << 20}
+								own, other = other, own
+							}
+							switch bind {
+							case "own":
+								o.Node = nodeOf[own]
+							case "other-group":
+								o.Node = nodeOf[other]
+							case "gone":
+								o.Node = "node-that-is-gone"
+							}
+							o.Phase = phase
+							hh.W.AddPod(o)
+						}}
+					hh := RunCase(t, s)
+					c.R.Evaluations++
+					c.R.Scans += hh.Scans
+					want := map[string]float64{"a": 0, controller.DefaultNodeGroup: 0}
+					switch attr {
+					case "selector", "affinity":
+						want["a"] = 300
+					case "default":
+						want[controller.DefaultNodeGroup] = 300
+					}
+					for name, w := range want {
+						if got := gaugeValue(metrics.NodeGroupCPURequest.WithLabelValues(name)); got != w {
+							c.Report(h.Found{Violation: h.Violation{Prop: "C14", Sig: "C14/e2e-attribution",
+								Msg: fmt.Sprintf("a 300m pod attributed by %s, bound %s, phase %s: group %s reports %v m of requests, the statement gives %v", attr, bind, phase, name, got, w)},
+								Scenario: "c14.e2e", Case: map[string]any{"order": []string{order[0].Opts.Name, order[1].Opts.Name}, "attributed_by": attr, "bound": bind, "phase": string(phase)}, Trace: append([]string(nil), hh.Trace...)})
+						}
+					}
+					c.Nontrivial(fmt.Sprint("e2e/", order[0].Opts.Name, attr, bind, phase))
+				}
+			}
+		}
+	}
+}
+
 func init() {
 	register(&Check{
 		ID:    "C14",
 		Level: "exploration",
 		Rule: "every pod shape in the universe: node selector {nil, empty, other key, key->other, key->value, key->value+extra} x affinity {nil, empty, node affinity without required terms, preferred only, match-fields only, pod affinity, pod anti-affinity, required with zero terms, one term of 0..2 expressions, two terms of 0..1 expressions; expressions over key {group key, other} x operator {In, NotIn, Exists, DoesNotExist, Gt} x values {[], [value], [other], [other,value]}} x owners {none, ReplicaSet, DaemonSet, both in either order} x static annotation {none, file, api}; 13 node label maps (including values differing only in case, by a trailing space, by a prefix / suffix); " +
-			"through the real filter constructors and again through the filtered listers (two consecutive List calls, the pods re-created under the same names with other shapes in between), compared with the predicate of the statement; non-trivial = every shape; distinct by construction",
+			"through the real filter constructors and again through the filtered listers (two consecutive List calls, the pods re-created under the same names with other shapes in between), compared with the predicate of the statement; end to end: one scan of a controller over a labelled group and the default group (both orders) with one pod attributed by selector / affinity / neither / DaemonSet-owned, bound nowhere / to its own group's node / to the other group's node / to a node that is gone, Running or Pending, reading each group's request total; non-trivial = every shape and case; distinct by construction",
 		Grid:        c14Grid,
 		Assumptions: append([]string{"default group: shapes whose affinity sub-structures are present but hold no rule are accepted with either answer (the statement does not settle them)"}, commonAssumptions...),
 	})
